@@ -862,7 +862,13 @@ func oracle(c Case) vkit.Outcome {
 				if id != "" && unrevoked[id] {
 					state = "after un-revoke/flush"
 				}
-				fail(fmt.Sprintf("rejected a valid token: alg=%s aud=%s nbf=%s jti=%s (%s, JWT cache %s)", tk.Alg, tk.Aud, tk.Nbf, tk.Jti, state, cacheState),
+				// never revoked: the cause lies in the token's shape; after an
+				// un-revoke or flush: in the revocation state, whatever the shape
+				shape := fmt.Sprintf(" alg=%s aud=%s nbf=%s", tk.Alg, tk.Aud, tk.Nbf)
+				if state != "never revoked" {
+					shape = ""
+				}
+				fail(fmt.Sprintf("rejected a valid token:%s (%s, JWT cache %s)", shape, state, cacheState),
 					"accepted: signed by a published key, iss/aud match, not expired, jti not revoked")
 			}
 			continue
